@@ -30,6 +30,7 @@ type c10Case struct {
 	Sig       string   `json:"signature"`
 	Mode      string   `json:"mode"`
 	Elected   bool     `json:"after_election"`
+	Removed   bool     `json:"after_proposer_removal,omitempty"` // the proposer was removed from the group; its first voter stepped in
 	WantAdmit bool     `json:"reference_admits"`
 	reason    string   // why the implementation refused it (its own log text)
 }
@@ -81,6 +82,17 @@ func c10Signer(w *enga.World, class string) (sim.Key, bool) {
 	case "other-relayer-member":
 		for _, m := range w.Members {
 			if m.AddrStr() != rel.Proposer {
+				return m.Key, true
+			}
+		}
+	case "removed-ex-proposer":
+		// a former member: neither the proposer nor a voter any more (its account and key still exist)
+		in := map[string]bool{rel.Proposer: true}
+		for _, v := range rel.Voters {
+			in[v] = true
+		}
+		for _, m := range w.Members {
+			if !in[m.AddrStr()] {
 				return m.Key, true
 			}
 		}
@@ -325,7 +337,7 @@ func c10Eval(w *enga.World, c *c10Case) (admitted bool, foreignEffect string) {
 }
 
 func runC10(r *mc.Run) {
-	r.Rule = "every sdk.Msg implementation registered in the application's interface registry (discovered at run time) x signer class (relayer proposer, other relayer member, consensus proposer, other validator, account-less key) x memo x timeout height {0,h-2,h-1,h,h+1} x signature {valid, wrong key, wrong sequence} x mode {CheckTx, prepare via mempool, ProcessProposal, FinalizeBlock}, before and after a relayer election; compositions (allowed+allowed, allowed+foreign, block-message+allowed, allowed+block-message, two message signers that both sign, a separate fee payer that co-signs - also for the block message alone and for two block messages of two accounts); ReCheck after an election and after the timeout height has passed (control: one block earlier it is still admitted); oracle = admission predicate from the statement; foreign messages must leave every store equal to the same block without them"
+	r.Rule = "every sdk.Msg implementation registered in the application's interface registry (discovered at run time) x signer class (relayer proposer, other relayer member, consensus proposer, other validator, account-less key) x memo x timeout height {0,h-2,h-1,h,h+1} x signature {valid, wrong key, wrong sequence} x mode {CheckTx, prepare via mempool, ProcessProposal, FinalizeBlock}, before and after a relayer election, and after the proposer itself was removed from the group (its first voter stepping in without an election; signer classes then include the removed ex-proposer); compositions (allowed+allowed, allowed+foreign, block-message+allowed, allowed+block-message, two message signers that both sign, a separate fee payer that co-signs - also for the block message alone and for two block messages of two accounts); ReCheck after an election and after the timeout height has passed (control: one block earlier it is still admitted); oracle = admission predicate from the statement; foreign messages must leave every store equal to the same block without them"
 	r.Assumptions = []string{"CheckTx is exercised on an application that has committed a block (a freshly restarted App checks at height 0 until its first commit: SDK behaviour)", "ReCheck only concerns transactions previously admitted by CheckTx"}
 	base, err := enga.NewWorld(c08Cfg())
 	if err != nil {
@@ -348,7 +360,14 @@ func runC10(r *mc.Run) {
 	signers := []string{"relayer-proposer", "other-relayer-member", "consensus-proposer", "other-validator", "account-less"}
 	modes := []string{"check", "prepare", "process", "finalize"}
 	var cases []*c10Case
-	for _, el := range []bool{false, true} {
+	type phase struct{ el, removed bool }
+	for _, ph := range []phase{{false, false}, {true, false}, {true, true}} {
+		el := ph.el
+		first := len(cases)
+		signers := signers
+		if ph.removed {
+			signers = append(append([]string{}, signers...), "removed-ex-proposer")
+		}
 		for _, u := range urls {
 			for _, s := range signers {
 				for _, memo := range []string{"", "m"} {
@@ -390,18 +409,24 @@ func runC10(r *mc.Run) {
 				}
 			}
 		}
+		if ph.removed {
+			for _, c := range cases[first:] {
+				c.Removed = true
+			}
+		}
 	}
 	for _, c := range cases {
 		c.WantAdmit = c10Ref(c)
 	}
 	r.States.Store(int64(len(cases)))
 	var mu sync.Mutex
-	pools := map[bool][]*enga.World{}
-	get := func(el bool) *enga.World {
+	pools := map[[2]bool][]*enga.World{}
+	get := func(el, removed bool) *enga.World {
+		k := [2]bool{el, removed}
 		mu.Lock()
-		if l := pools[el]; len(l) > 0 {
+		if l := pools[k]; len(l) > 0 {
 			w := l[len(l)-1]
-			pools[el] = l[:len(l)-1]
+			pools[k] = l[:len(l)-1]
 			mu.Unlock()
 			return w
 		}
@@ -409,18 +434,32 @@ func runC10(r *mc.Run) {
 		// a warmed world: own App that has committed blocks (not a fork), so CheckTx runs at a real height
 		w, err := enga.NewWorld(c08Cfg())
 		must(err)
-		w.Run(enga.ABlock{}) // height 2, so that h-2 is a real (expired) timeout height
-		if el {
-			if rr := w.Run(enga.ABlock{Dt: 7}); rr.Err != nil {
-				panic(rr.Err)
-			}
-		}
+		c10Prepare(w, el, removed)
 		return w
 	}
-	put := func(el bool, w *enga.World) { mu.Lock(); pools[el] = append(pools[el], w); mu.Unlock() }
+	put := func(el, removed bool, w *enga.World) {
+		mu.Lock()
+		pools[[2]bool{el, removed}] = append(pools[[2]bool{el, removed}], w)
+		mu.Unlock()
+	}
+	{
+		// the third state is what it claims to be: the genesis proposer is out of the group and the
+		// seat went to somebody else without an election
+		w := get(true, true)
+		rel2, _ := w.Relayer()
+		gone := rel2.Proposer != rel0.Proposer
+		for _, v := range rel2.Voters {
+			gone = gone && v != rel0.Proposer
+		}
+		if !gone {
+			r.Cap("the proposer's removal did not take effect; removed-proposer state not exercised")
+		}
+		r.Bounds["proposer_after_removal_differs"] = gone
+		put(true, true, w)
+	}
 	mc.Parallel(len(cases), runtime.NumCPU()*2, func(i int) {
 		c := cases[i]
-		w := get(c.Elected)
+		w := get(c.Elected, c.Removed)
 		reusable := c.Mode == "process"
 		admitted, eff := c10Eval(w, c)
 		r.Transitions.Add(1)
@@ -440,7 +479,7 @@ func runC10(r *mc.Run) {
 			reusable = w.N.App.Mempool().CountTx() == 0
 		}
 		if reusable {
-			put(c.Elected, w)
+			put(c.Elected, c.Removed, w)
 		} else {
 			w.Close()
 		}
@@ -550,6 +589,23 @@ func c10Recheck(r *mc.Run) {
 	}
 }
 
+// c10Prepare brings a fresh world into the state a case is delivered in.
+func c10Prepare(w *enga.World, elected, removed bool) {
+	w.Run(enga.ABlock{}) // height 2, so that h-2 is a real (expired) timeout height
+	switch {
+	case removed:
+		for _, b := range []enga.ABlock{{Events: []enga.Event{{Kind: "req:removevoter", Var: "proposer"}}}, {Dt: 7}} {
+			if rr := w.Run(b); rr.Err != nil {
+				panic(rr.Err)
+			}
+		}
+	case elected:
+		if rr := w.Run(enga.ABlock{Dt: 7}); rr.Err != nil {
+			panic(rr.Err)
+		}
+	}
+}
+
 func replayC10(detail json.RawMessage) (bool, string) {
 	var c c10Case
 	if err := json.Unmarshal(detail, &c); err != nil || len(c.Msgs) == 0 {
@@ -560,10 +616,7 @@ func replayC10(detail json.RawMessage) (bool, string) {
 		return false, err.Error()
 	}
 	defer w.Close()
-	w.Run(enga.ABlock{})
-	if c.Elected {
-		w.Run(enga.ABlock{Dt: 7})
-	}
+	c10Prepare(w, c.Elected, c.Removed)
 	adm, eff := c10Eval(w, &c)
 	return adm != c10Ref(&c) || eff != "", fmt.Sprintf("admitted=%v reference=%v effect=%s", adm, c10Ref(&c), eff)
 }
